@@ -120,9 +120,14 @@ pub struct GenCase {
     pub prior_calls: u8,
     /// which of the equivalent public API entry points configure the generator: bit 0 - opcode knobs
     /// through with_min_opcodes / with_max_opcodes instead of with_opcode_range; bit 1 - mutators added one
-    /// by one with with_mutator instead of with_mutators; bit 2 - knobs written to the public fields
+    /// by one with with_mutator instead of with_mutators; bit 2 - knobs written to the public fields;
+    /// bit 3 - setters that would only restate a default (unsafe=false, ext=false, buffer=false) are not
+    /// called; bit 4 - the caller takes the public `output` buffer after every earlier call
     #[serde(default)]
     pub build_style: u8,
+    /// `with_buffer_size(n)` (documented as limiting the pickle size; a no-op in the tree as given)
+    #[serde(default)]
+    pub bufsize: Option<usize>,
 }
 
 impl GenCase {
@@ -139,6 +144,7 @@ impl GenCase {
             allow_buffer: false,
             prior_calls: 0,
             build_style: 0,
+            bufsize: None,
         }
     }
 
@@ -172,6 +178,7 @@ impl GenCase {
             self.allow_buffer as u8
         ) + &if self.prior_calls > 0 { format!(" after {} earlier call(s)", self.prior_calls) } else { String::new() }
             + &if self.build_style > 0 { format!(" api-style={}", self.build_style) } else { String::new() }
+            + &self.bufsize.map(|n| format!(" bufsize={}", n)).unwrap_or_default()
     }
 
     /// Build the real generator exactly the way the repository's own callers do
@@ -218,9 +225,20 @@ impl GenCase {
         } else {
             g = g.with_mutation_rate(self.rate.value());
         }
-        g.with_unsafe_mutations(self.unsafe_mutations)
-            .with_ext_opcodes(self.allow_ext)
-            .with_buffer_opcodes(self.allow_buffer)
+        if let Some(n) = self.bufsize {
+            g = g.with_buffer_size(n);
+        }
+        let skip_defaults = self.build_style & 8 != 0;
+        if self.unsafe_mutations || !skip_defaults {
+            g = g.with_unsafe_mutations(self.unsafe_mutations);
+        }
+        if self.allow_ext || !skip_defaults {
+            g = g.with_ext_opcodes(self.allow_ext);
+        }
+        if self.allow_buffer || !skip_defaults {
+            g = g.with_buffer_opcodes(self.allow_buffer);
+        }
+        g
     }
 
     /// one generation call on an existing generator with this case's entropy
@@ -245,6 +263,10 @@ impl GenCase {
     fn warm(&self, g: &mut Generator, spy: Option<&SpyLog>) {
         for i in 0..self.prior_calls {
             let _ = call_gen_guarded(g, &self.prior_entropy(i));
+            if self.build_style & 16 != 0 {
+                // `output` is a public field; a caller may move the bytes out instead of cloning them
+                let _ = std::mem::take(&mut g.output);
+            }
         }
         if let Some(l) = spy {
             l.lock().unwrap().clear();
@@ -608,9 +630,9 @@ pub fn gencase(p: &Profile) -> BoxedStrategy<GenCase> {
         prop_oneof![2 => Just(false), 1 => Just(true)],
         prop_oneof![2 => Just(false), 1 => Just(true)],
         prop_oneof![14 => Just(0u8), 4 => Just(1u8), 2 => Just(2u8)],
-        prop_oneof![3 => Just(0u8), 2 => 0u8..8],
+        (prop_oneof![3 => Just(0u8), 3 => 0u8..32], prop_oneof![9 => Just(None), 1 => proptest::sample::select(vec![16usize, 64, 256, 320, 1024, 4096, 1 << 20]).prop_map(Some)]),
     )
-        .prop_map(move |(protocol, entropy, (min, max), mutators, rate, uns, ext, buf, prior, style)| GenCase {
+        .prop_map(move |(protocol, entropy, (min, max), mutators, rate, uns, ext, buf, prior, (style, bufsize))| GenCase {
             protocol,
             entropy,
             min_opcodes: min,
@@ -627,6 +649,7 @@ pub fn gencase(p: &Profile) -> BoxedStrategy<GenCase> {
             // long programs are not repeated (cost), everything else sometimes runs on a reused generator
             prior_calls: if min.max(max) > 2000 { 0 } else { prior },
             build_style: style,
+            bufsize,
         })
         .boxed()
 }
@@ -690,6 +713,7 @@ pub fn gencase_from_bytes(data: &[u8], unsafe_mode: UnsafeMode) -> GenCase {
         allow_ext: flags & 4 != 0,
         allow_buffer: flags & 8 != 0,
         prior_calls: (flags >> 4) % 3,
-        build_style: flags >> 6,
+        build_style: (flags >> 6) | ((b(8) & 7) << 2),
+        bufsize: None,
     }
 }
